@@ -570,7 +570,6 @@ fn gen_queries(rng: &mut Rng, chain: &[ABlock]) -> Vec<Query> {
 
 pub fn gen_cases(rng: &mut Rng, tier: &str, prop: &str) -> Vec<Line> {
   let (n, max_blocks) = match (tier, prop) {
-    ("thorough", "C17") => (1200, 40),
     ("thorough", _) => (2500, 40),
     (_, _) => (120, 12),
   };
